@@ -476,13 +476,14 @@ class Oscar(BaseStorer):
                 raise ValueError("The number of output per event is empty.")
             if self.num_events_ is None:
                 raise ValueError("The number of events is empty.")
-            if (
+            if self.num_events_ == 0 or (
                 self.num_events_ == 1
                 and self.particle_list_ == [[]]
                 and len(self.event_origin_) == 0
             ):
-                # every event was removed; an empty event that is still
-                # held has an entry in event_origin_ and is written
+                # no event is held (constructor filters removed all of them),
+                # or every event was removed by a cut; an empty event that is
+                # still held has an entry in event_origin_ and is written
                 warnings.warn("The number of events is zero.")
             elif self.num_events_ > 1:
                 for i in range(self.num_events_):
